@@ -132,6 +132,8 @@ func (p Prob) key(withSev bool) string {
 	return s
 }
 
+var lineDirectivePositions int // positions mapped back from //line coordinates (evidence)
+
 type runResult struct {
 	byPkg  map[string][]Prob
 	exit   int
@@ -187,6 +189,27 @@ func staticcheck(dir, cache string, args ...string) (*runResult, error) {
 		}
 		pkg, file := filepath.Split(rel)
 		pkg = strings.TrimSuffix(pkg, "/")
+		if phys, ok := strings.CutPrefix(file, "zzline_"); ok {
+			// a generated file that starts with "//line zzline_<name>:N": back to physical coordinates
+			b, err := os.ReadFile(filepath.Join(dir, pkg, phys))
+			if err != nil {
+				return res, fmt.Errorf("position in %s but %s cannot be read: %v", file, phys, err)
+			}
+			found := false
+			for q, l := range strings.Split(string(b), "\n") {
+				var n int
+				if _, err := fmt.Sscanf(l, "//line zzline_"+phys+":%d", &n); err == nil {
+					j.Location.Line = q + 2 + (j.Location.Line - n)
+					found = true
+					break
+				}
+			}
+			if !found {
+				return res, fmt.Errorf("position in %s but %s has no //line comment", file, phys)
+			}
+			file = phys
+			lineDirectivePositions++
+		}
 		res.byPkg[pkg] = append(res.byPkg[pkg], Prob{pkg, file, j.Location.Line, j.Location.Column, j.Code, j.Severity, j.Message})
 	}
 	return res, nil
@@ -220,8 +243,8 @@ func locate(src string) (attach, error) {
 					continue
 				}
 				n++
-				p := fset.Position(c.Pos())
-				res = attach{found: true, nodeLine: fset.Position(node.Pos()).Line, nodeKind: fmt.Sprintf("%T", node), dirLine: p.Line, dirCol: p.Column}
+				p := fset.PositionFor(c.Pos(), false)
+				res = attach{found: true, nodeLine: fset.PositionFor(node.Pos(), false).Line, nodeKind: fmt.Sprintf("%T", node), dirLine: p.Line, dirCol: p.Column}
 			}
 		}
 	}
@@ -355,6 +378,8 @@ func evaluateQ(c *Case, cache string) (results []variantResult, q quality, genIn
 		return nil, q, "", err.Error()
 	}
 	ev.Count("staticcheck_runs", 2)
+	ev.Count("positions_mapped_back_from_line_directive_coordinates", lineDirectivePositions)
+	lineDirectivePositions = 0
 	ev.Count("ms_in_runs_with_show_ignored", int(t1.Sub(t0).Milliseconds()))
 	ev.Count("ms_in_runs_without_show_ignored", int(time.Since(t1).Milliseconds()))
 	r0 := runA.byPkg["p0"]
